@@ -26,7 +26,7 @@ func TestMain(m *testing.M) {
 	sim.Quiet()
 	sharedDB = store.NewChainDataBase(sim.NewDir())
 	code := m.Run()
-	sharedDB.Close()
+	sim.CloseDB(sharedDB)
 	os.RemoveAll(sim.TmpRoot())
 	os.Exit(code)
 }
